@@ -43,7 +43,8 @@ Rel(h, runs) ==
     [] Mode = "C09" /\ h.rel = "present" -> P09!Present(runs)
     [] Mode = "C09" /\ h.rel = "options" -> FirstBad([i \in 1..n |-> IF i = 1 THEN "" ELSE P09!Options(runs[1], runs[i])], 1)
     [] Mode = "C09" /\ h.rel = "width_exact" -> IF n < 2 THEN "" ELSE P09!WidthExact(runs[1], runs[2])
-    [] Mode = "C19" /\ h.rel = "noop" -> P19!Rel(runs[1].evs, runs[2].evs, h.inserted)
+    [] Mode = "C09" /\ h.rel = "full_unknown" -> IF n < 2 THEN "" ELSE P09!FullUnknown(runs[1], runs[2])
+    [] Mode = "C19" /\ h.rel = "noop" -> P19!Rel(runs[1].evs, runs[2].evs, h.inserted, IF "optional" \in DOMAIN h THEN h.optional ELSE <<>>)
     [] OTHER -> ""
 
 Init == l = 1 /\ c = [n |-> -1, sch |-> <<>>, start |-> 0, hdr |-> <<>>] /\ w = InitWriter /\ m = Trivial /\ skip = FALSE
